@@ -16,6 +16,7 @@ pub mod c11;
 pub mod c12;
 pub mod c13;
 pub mod c14;
+pub mod c14r;
 pub mod c15;
 pub mod c16;
 pub mod c17;
@@ -50,6 +51,7 @@ pub fn all() -> Vec<Scenario> {
         Scenario { name: "c12", plan: c12::plan, run: c12::run },
         Scenario { name: "c13", plan: c13::plan, run: c13::run },
         Scenario { name: "c14", plan: c14::plan, run: c14::run },
+        Scenario { name: "c14r", plan: c14r::plan, run: c14r::run },
         Scenario { name: "c15", plan: c15::plan, run: c15::run },
         Scenario { name: "c16", plan: c16::plan, run: c16::run },
         Scenario { name: "c17", plan: c17::plan, run: c17::run },
